@@ -1001,16 +1001,20 @@ func genExtraOp(r *rng, p *Plan, usable func(ver int, mut bool) []int) (Op, bool
 	var args []string
 	for _, k := range fn.Params {
 		switch k {
-		case "string":
+		case "string", "bytes":
 			switch r.intn(4) {
 			case 0:
 				args = append(args, genMetric(r, fn.Ver, 0.2))
 			case 1:
 				args = append(args, genValue(r, fn.Ver, genMetric(r, fn.Ver, 0), 0.2))
 			case 2:
-				args = append(args, genValid(r, fn.Ver))
+				args = append(args, genVector(r, fn.Ver))
 			default:
-				args = append(args, genMetric(r, fn.Ver, 0))
+				if k == "bytes" {
+					args = append(args, genVector(r, fn.Ver))
+				} else {
+					args = append(args, genMetric(r, fn.Ver, 0))
+				}
 			}
 		case "int":
 			args = append(args, fmt.Sprint([]int{0, 1, 2, 3, 7, 10, 100, -1}[r.intn(8)]))
